@@ -142,7 +142,7 @@ class NormPrim:
     function = "gbasis.contractions.GeneralizedContractionShell.norm_prim_cart"
 
     def shapes(self, tier):
-        return [dict(l=l, K=2 if l < 3 else 1) for l in range(0, 4 if tier == "quick" else 8)]
+        return [dict(l=l, K=2 if l < 3 else 1) for l in range(0, 7 if tier == "quick" else 8)]
 
     def run(self, shape, M):
         l, K = shape["l"], shape["K"]
